@@ -19,7 +19,10 @@ def pick_model(seed, idx, features=None, size="s", opt=None, curated_p=0.25, acc
       if "humanoid" in path:
         spec["opt"]["iterations"] = 100
     else:
-      spec = models.generate(_rng.mix(seed, idx, t), features=features, size=size, opt=opt, accept=accept)
+      try:
+        spec = models.generate(_rng.mix(seed, idx, t), features=features, size=size, opt=opt, accept=accept, tries=12)
+      except RuntimeError:  # no candidate of this sub-seed compiled and passed `accept`: next sub-seed
+        continue
     if r.random() < 0.5:
       spec["mopt"] = models.random_mopt(_rng.mix(seed, idx, t, "m"))
     try:
